@@ -102,6 +102,28 @@ Proof.
   eapply prune_prefix_safe; [exact Hc | eapply model_plan_valid; eassumption | exact Hr].
 Qed.
 
+(* Single-op faults (a backend modification fails permanently, everything else proceeds; any number and
+   position of failed ops): every attempted-op sequence accepted by run_okf - in particular one where
+   nothing obsolete is removed after a failed Save - keeps every used blob loadable after every step,
+   whether prune reports an error or success. *)
+Theorem C09_prune_fault_safe : forall R0 used pl ftr,
+  Consistent R0 used -> valid_planb R0 used pl = true -> run_okf pl PhA false R0 ftr = true ->
+  forall n, Consistent (frun R0 (firstn n ftr)) used.
+Proof. exact prune_fault_safe. Qed.
+
+Theorem C09_no_index_removal_after_failed_save : forall pl ph R i r,
+  run_okf pl ph true R ((RmI i, true) :: r) = false.
+Proof. exact no_index_removal_after_failed_save. Qed.
+
+Theorem C09_fault_oracle_sound : forall R0 used pl ftr rep c1 c2 c3,
+  check_case (CFault R0 used pl false ftr rep c1 c2 c3) = 0%nat ->
+  (forall n, Consistent (frun R0 (firstn n ftr)) used) /\
+  (must_report ftr = true -> rep = true) /\ c1 = true /\ c2 = true /\ c3 = true.
+Proof. exact check_fault_sound. Qed.
+
+Print Assumptions C09_prune_fault_safe.
+Print Assumptions C09_no_index_removal_after_failed_save.
+Print Assumptions C09_fault_oracle_sound.
 Print Assumptions C09_model_plan_valid.
 Print Assumptions C09_model_plan_prefix_safe.
 Print Assumptions C09_keep_reduction_valid.
